@@ -83,7 +83,10 @@ def fixed_point_problem(nd: tg.Node, v: t.Any, native: bool) -> t.Optional[t.Tup
             raise _Skip('from_data did not accept (C01 reports that)')
         how = f'from_data({short(v, 120)}, T)'
     # the value's own serialised form, to detect inherent union ambiguity
-    (k, d) = outcome(lambda: pane.into_data(x))
+    # (only where there is a union to be ambiguous about: without one, convert(x, T) must simply succeed - also for values whose
+    #  own serialised form is the value itself, such as members of str / int mixin enums)
+    has_union = any(n.kind in ('union', 'ValueOrList', 'tagged') or n.kind.startswith('typevar') for n in nd.walk())
+    (k, d) = outcome(lambda: pane.into_data(x)) if has_union else ('skip', None)
     if k == 'ok':
         (rd, trace_d) = tg.ref_traced(nd, d)
         if isinstance(rd, tg.Unspec):
@@ -214,6 +217,6 @@ def suites(tier: str) -> t.List[Suite]:
     return [
         Suite('fixedpoint', check, strategy=lambda: cases(gen.all_type_specs(leaves)), examples=8000 if big else 600,
               budget_s=480 if big else 40, render=render),
-        Suite('overlap-unions', check, strategy=lambda: cases(gen.overlap_union_specs()), examples=3000 if big else 250, budget_s=240 if big else 25, render=render),
+        Suite('overlap-unions', check, strategy=lambda: cases(gen.overlap_union_specs()), examples=4000 if big else 450, budget_s=300 if big else 30, render=render),
         Suite('range', check_range, strategy=range_cases, examples=300 if big else 40, budget_s=60),
     ]
